@@ -143,7 +143,41 @@ def check_tree(r, name, cg, f, text, t, case, call_no, ctxcache):
     v = sem.sat(cg, t, f)
     if v is False:
         kinds = ",".join(sorted(atom_kinds(f)))
+        if _relates_tree_to_possible_subtree(cg, f):
+            kinds += "/atom-relates-a-tree-to-a-possible-subtree"
         r.viol(f"solution/violates-constraint/{kinds}", f"solution #{call_no} {w!r} does not satisfy {text!r} [{case['setting']}]", dict(case, tree=tjson(t)), "satisfying tree", w)
+
+
+def _relates_tree_to_possible_subtree(cg, f, types=None):
+    """does some SMT atom mention two tree variables one of whose types can occur below the other's (or both the same recursive type)?"""
+    from ..ref import member
+
+    types = types or {}
+    k = f[0]
+    if k in ("forall", "exists"):
+        t2 = dict(types, **{f[2]: f[1]})
+        for e in f[3] or ():
+            if e[0] == "b":
+                t2[e[2]] = e[1]
+        return _relates_tree_to_possible_subtree(cg, f[5], t2)
+    if k in ("forall_int", "exists_int"):
+        return _relates_tree_to_possible_subtree(cg, f[2], types)
+    if k in ("not", "and", "or"):
+        return any(_relates_tree_to_possible_subtree(cg, g_, types) for g_ in f[1:])
+    if k == "smt":
+        vs = sorted({x for x in _vars_of(f[1]) if x in types})
+        reach = member.reach_rel(cg)
+        return any(types[b] in reach[types[a]] or types[a] in reach[types[b]] for i, a in enumerate(vs) for b in vs[i + 1:])
+    return False
+
+
+def _vars_of(e):
+    if isinstance(e, list):
+        if len(e) == 2 and e[0] == "v":
+            yield e[1]
+        else:
+            for x in e:
+                yield from _vars_of(x)
 
 
 def run_instance(r, name, f, sname, deviate, tier):
